@@ -191,7 +191,147 @@ def body(chk):
                         replay=replay_script(chk, scalar, ['masa_init<double>("d","euler_1d"); masa_init<long double>("e","euler_3d"); masa_set_param<double>("L",2.5); masa_set_param<long double>("L",7.5L);',
                                                            'std::string a,b; masa_get_name<double>(&a); masa_get_name<long double>(&b); printf("\\nR %s %s %d %d\\n", a.c_str(), b.c_str(), masa_get_param<double>("L")==2.5, masa_get_param<long double>("L")==7.5L);'],
                                              ['R euler_1d euler_3d 1 1'], 'double/long double registries'))
+    # ---- bounded exploration of API SEQUENCES from the empty registry (concrete handles, symbolic parameter values):
+    #      catches state that the one-step check's constructed pre-states do not contain (e.g. a cached 'last selected' name)
+    depth = 4 if chk.tier == 'quick' else 5
+    for scalar in (('double',) if chk.tier == 'quick' else ('double', 'long double')):
+        sequences(chk, w, scalar, depth)
+    chk.bounds['api_sequence_depth'] = depth
     chk.solve_all()
+
+
+def sequences(chk, w, scalar, depth):
+    """every sequence of at most `depth` operations over {init(A,n1), init(B,n1), init(A,n2), select(A), select(B), set(p:=V_k)}
+    executed on the IR from the empty registry; after every step the registry snapshot (handles -> solution name, selected handle)
+    and the first parameter of every instance are compared with a reference map."""
+    ex = w.ex
+    n1, n2 = 'euler_1d', 'heateq_1d_steady_const'
+    finit = S.api_fn(w, 'masa_init', scalar, 'std::string, std::string')
+    fsel = S.api_fn(w, 'masa_select_mms', scalar, 'std::string')
+    fset = S.api_fn(w, 'masa_set_param', scalar, 'std::string, %s' % scalar)
+    S.install_api_models(w)
+    first_param = {n1: 'L', n2: 'A_x'}
+    ops = [('init', 'A', n1), ('init', 'B', n1), ('init', 'A', n2), ('select', 'A'), ('select', 'B'), ('set',)]
+
+    def observe(st):
+        ptr, ents = R.snapshot(w, st, scalar)
+        sel = None
+        view = {}
+        for h, p in ents.items():
+            d = w.describe(st, p, scalar)
+            pn = first_param.get(d['name'])
+            a = d['params'].get(pn, (None, None))[1] if pn else None
+            view[h] = (d['name'], st.mem[(a.rid, a.off)][1] if a is not None else None)
+            if p == ptr:
+                sel = h
+        return sel, view
+
+    bad = []
+    count = [0]
+    seen_samples = []
+
+    def step(st, ref, seq):
+        if len(seq) >= depth:
+            return
+        for k, op in enumerate(ops):
+            ex.st = st.clone()
+            ex.schedule, ex.decisions, ex.pending = [], [], []
+            nref = dict(sel=ref['sel'], view=dict(ref['view']))
+            fatal = False
+            try:
+                if op[0] == 'init':
+                    ex.call(finit, [S.new_string(ex, op[1]), S.new_string(ex, op[2])])
+                    st_c, refsol = w.find(scalar, op[2])
+                    pn = first_param[op[2]]
+                    a = refsol['params'][pn][1]
+                    nref['view'][op[1]] = (op[2], st_c.mem[(a.rid, a.off)][1])
+                    nref['sel'] = op[1]
+                elif op[0] == 'select':
+                    if op[1] not in ref['view']:
+                        fatal = True
+                    ex.call(fsel, [S.new_string(ex, op[1])])
+                    nref['sel'] = op[1]
+                else:
+                    if ref['sel'] is None:
+                        fatal = True
+                        ex.call(fset, [S.new_string(ex, 'L'), tm.sym('V0')])
+                    else:
+                        nm = ref['view'][ref['sel']][0]
+                        val = tm.sym('V%d' % (len(seq) + 1))
+                        ex.call(fset, [S.new_string(ex, first_param[nm]), val])
+                        nref['view'][ref['sel']] = (nm, val)
+                if ex.pending:
+                    raise ExecError('sequence step forked')
+                ended = False
+            except framework_terminal() as t:
+                ended = True
+            count[0] += 1
+            nseq = seq + [op]
+            if ended != fatal:
+                bad.append((nseq, 'terminated=%s, reference expects fatal=%s' % (ended, fatal)))
+                continue
+            if ended:
+                continue
+            got = observe(ex.st)
+            if got != (nref['sel'], nref['view']):
+                bad.append((nseq, 'library state %r, reference %r' % (got, (nref['sel'], nref['view']))))
+                continue
+            if len(seen_samples) < 3 and len(nseq) == depth:
+                seen_samples.append(dict(sequence=[' '.join(o) for o in nseq], selected=got[0], handles={h: v[0] for h, v in got[1].items()}))
+            step(ex.st, nref, nseq)
+
+    st0 = w.base.clone()
+    st0.events, st0.writes = [], []
+    step(st0, dict(sel=None, view={}), [])
+    chk.extra_cov['api_sequences_steps_executed<%s>' % scalar] = count[0]
+    chk.samples.extend(seen_samples)
+    why = '; '.join('%s: %s' % (' / '.join(' '.join(o) for o in sq), wh) for sq, wh in bad[:3])
+    lines = []
+    expected = None
+    if bad:
+        # replay the first failing sequence on the real library; every instance gets a distinct marker value right after its init so
+        # that two handles of the same solution type can be told apart; the reference tracks the marker of the selected handle
+        sq = bad[0][0]
+        cnt = 0
+        marker = {'A': 101.5, 'B': 202.5}
+        rsel, rval, rname = None, {}, {}
+        for o in sq:
+            if o[0] == 'init':
+                lines.append('masa_init<Scalar>("%s","%s"); masa_set_param<Scalar>("%s",(Scalar)%s);' % (o[1], o[2], first_param[o[2]], marker[o[1]]))
+                rsel, rval[o[1]], rname[o[1]] = o[1], marker[o[1]], o[2]
+            elif o[0] == 'select':
+                lines.append('masa_select_mms<Scalar>("%s");' % o[1])
+                rsel = o[1]
+            else:
+                cnt += 1
+                lines.append('{ std::string n_; masa_get_name<Scalar>(&n_); masa_set_param<Scalar>(n_=="euler_1d" ? "L" : "A_x",(Scalar)%d.25); }' % cnt)
+                rval[rsel] = cnt + 0.25
+        lines.append('{ std::string n_; masa_get_name<Scalar>(&n_); printf("\\nR selected %s %.2f\\n", n_.c_str(), (double)masa_get_param<Scalar>(n_=="euler_1d" ? "L" : "A_x")); }')
+        expected = 'R selected %s %.2f' % (rname.get(rsel), rval.get(rsel, 0))
+    chk.paths_clean('sequences<%s>:every-API-sequence-up-to-length-%d-matches-the-reference-registry' % (scalar, depth), [tm.TRUE] if bad else [], key='sequences', family='sequences',
+                    sample=dict(obligation='API sequences', steps=count[0], failing=why),
+                    replay=sequence_replay(chk, scalar, lines, bad[0] if bad else None, why, expected))
+
+
+def framework_terminal():
+    from exec import Terminal
+    return Terminal
+
+
+def sequence_replay(chk, scalar, lines, badseq, why, expected=None):
+    def replay(ob, model):
+        import replay as rp
+        if badseq is None:
+            return dict(reproduced=False, path=None, detail='')
+        cxx = rp.SCALAR_CXX[scalar]
+        want = expected
+        src = '#include <masa.h>\n#include <cstdio>\n#include <string>\nusing namespace MASA;\ntypedef %s Scalar;\nint main(){\n%s\n return 0;}\n' % (cxx, '\n'.join(lines))
+        rc, out, err = chk.lib().run(src)
+        if want not in out:
+            path = chk.save_replay(ob, dict(obligation=ob.name, sequence=[' '.join(o) for o in badseq[0]], expected=want, stdout=out[-1500:], why=why), src)
+            return dict(reproduced=True, path=path, detail='sequence %s: real library does not end with the reference selection (%s); %s' % (' / '.join(' '.join(o) for o in badseq[0]), want, why[:200]))
+        return dict(reproduced=False, path=None, detail='real library follows the reference on the failing sequence (only the selected name is replayed): ' + why[:200])
+    return replay
 
 
 if __name__ == '__main__':
